@@ -635,7 +635,7 @@ attr * attr_new(char * key, char * value) {
 		len--;
 	}
 
-	if (value[len - 1] == '"') {
+	if (len > 0 && value[len - 1] == '"') {
 		value[len - 1] = '\0';
 	}
 
